@@ -661,6 +661,8 @@ def c14_dimred(n, seed, procs):
         if mode == "dual" and abs(t - t0) > 2e-6 * sc + 1e-3 * small * 0:
             fails.append(dict(what="dual bound with %s is %.9g, without it %.9g" % (heur, t, t0), oracle="c14_dimred", input=desc, tags=["c14"]))
         prim = float(pep.objective.eval())
+        if mode == "primal" and abs(float(t) - prim) > 1e-9 * sc:
+            fails.append(dict(what="the value returned in primal mode after %s (%.9g) is not the objective of the returned instance (%.9g)" % (heur, t, prim), oracle="c14_dimred", input=desc, tags=["c14"]))
         if prim < t0 - tol - (2e-4 if heur.startswith("logdet") else 2e-5) * sc:
             fails.append(dict(what="primal value %.9g is more than tol=%g below the optimum %.9g" % (prim, tol, t0), oracle="c14_dimred", input=desc, observed=t0 - prim, expected="<= %g" % tol, tags=["c14"]))
         from ocommon import worst_violation
